@@ -94,6 +94,11 @@ rules = [
  (('ctx', None, 'delete contractAddress'), PS, 'idem'),
  (('ctx', None, 'write gasUsed'), PS, 'executor output'),
  (('ctx', None, 'read gasUsed'), PS, 'never deleted: a later transaction of the SAME block sees the previous value (deterministic: the context map is new per execution; part of OpaqueOut.extra)'),
+
+ (('gwrite', None, 'common.epochBlocks'), PS, 'memoisation of a constant (epoch / castingInterval): idempotent write'),
+ (('gwrite', None, 'common.refundBlocks'), PS, 'idem'),
+ (('gwrite', None, 'common.rewardBlocks'), PS, 'idem'),
+ (('gwrite', None, 'account.rpgContractAddress'), PS, 'cache fill from the state (genesis-time constant binding); the only writes to package-level state on the execution path'),
 ]
 def classify(s):
     k, kind, f, fn, det = s
@@ -172,7 +177,7 @@ theorem flag_reads_pinned :
 
 /-- every process-local state access found on the execution path is one of the classified ones -/
 theorem process_local_reads_pinned :
-    ((sites.filter (fun s => s.kind == "global" || s.kind == "store" || s.kind == "ctx")).map (·.key)).all
+    ((sites.filter (fun s => s.kind == "global" || s.kind == "store" || s.kind == "ctx" || s.kind == "gwrite")).map (·.key)).all
       (fun k => processLocalAccounted.contains k) = true := by
   decide
 
